@@ -844,11 +844,12 @@ def static_oracle(files: dict[str, str]) -> list[dict]:
         # (3c) every name a class uses for a base or an annotation is bound in the module
         bound = top_level_names(tree) | set(dir(__import__("builtins")))
         for cls in [n for n in tree.body if isinstance(n, ast.ClassDef)]:
-            exprs = list(cls.bases) + [st.annotation for st in cls.body if isinstance(st, ast.AnnAssign)]
-            for ex in exprs:
+            exprs = [(None, b) for b in cls.bases] + [(ast.unparse(st.target), st.annotation) for st in cls.body if isinstance(st, ast.AnnAssign)]
+            for member, ex in exprs:
                 for nd in ast.walk(ex):
                     if isinstance(nd, ast.Name) and nd.id not in bound:
-                        fails.append({"check": "use_is_bound", "file": rel, "detail": f"class {cls.name} uses `{nd.id}`, which the module neither imports nor defines", "importer": importer, "is_init": is_init, "name": nd.id})
+                        fails.append({"check": "use_is_bound", "file": rel, "detail": f"class {cls.name} uses `{nd.id}`, which the module neither imports nor defines", "importer": importer, "is_init": is_init, "name": nd.id,
+                                      "cls": cls.name, "member": member})
     return fails
 
 
@@ -1231,7 +1232,7 @@ def classify(fail: dict, case: dict, pred: dict | None, files: dict[str, str]) -
     # The recorded finding C12-collapse-import is about the names that COME OUT OF a collapsed root model. A name that the
     # module owes to a direct use of an ordinary class (member type / base class) is not excused by it: such a failure is
     # classified by what else applies, else as a plain missing import.
-    owed = fail["check"] == "use_is_bound" and "defs" in case and directly_needed(case, rel, fail.get("name", ""))
+    owed = fail["check"] == "use_is_bound" and "defs" in case and "cls" in fail and directly_needed(case, fail)
     if pred is None and not owed and case["opts"].get("collapse_root_models") and case.get("roots") and fail["check"] in ("use_is_bound", "use_reaches_definition"):
         return {**base, "mechanism": "collapse_root_model_import_lost"}
     if base["input_kind"] == "file_tree":
@@ -1298,31 +1299,25 @@ def classify(fail: dict, case: dict, pred: dict | None, files: dict[str, str]) -
     return {**base, "mechanism": "other"}
 
 
-def directly_needed(case: dict, rel: str, name: str) -> bool:
-    """Stated on the INPUT: does a definition written to the file `rel` refer DIRECTLY (member `$ref` or base class)
-    to an ordinary (non-root-model) definition of another module that the name `name` designates in that file — the
-    class itself (exact imports, base classes) or else the last component of its module (`from . import types`),
-    also with the `_`/`_<n>` suffix the scoped resolver appends? Such a use is written whatever
-    --collapse-root-models does to the root models around it, and it needs its import."""
-    if not name:
-        return False
-    me, _ = file_module(rel)
+def directly_needed(case: dict, fail: dict) -> bool:
+    """Stated on the INPUT, for a name that is unbound in a base-class expression or in the annotation of member `r<i>`
+    of class `cls` of the file: is THAT base / member, in the definition of that name written to that file, a DIRECT
+    reference to an ordinary (non-root-model) definition of another module? Such a use is written whatever
+    --collapse-root-models does to the root models around it, and it needs its import. (build_doc names the member of
+    the i-th reference `r<i>`; a class that cannot be found in the input by its module and name is not judged.)"""
+    me, _ = file_module(fail.get("file", ""))
     roots = case.get("roots") or {}
-    stems = set()
+    member = fail.get("member")
     for nm, refs in case["defs"].items():
-        if mod_of(nm) != me or nm in roots:
+        if mod_of(nm) != me or cls_of(nm) != fail.get("cls") or nm in roots:
             continue
-        exact = bool(case["opts"].get("use_exact_imports"))
-        for r, is_base in [(r, False) for r in refs] + ([(case["bases"][nm], True)] if nm in case["bases"] else []):
-            if r in roots or mod_of(r) == me:
-                continue
-            # a base class and, under --use-exact-imports, a member type are written by the class's name; a member type
-            # is otherwise written `module.Class` and needs the module's name
-            if is_base or exact:
-                stems.add(cls_of(r))
-            elif mod_of(r):
-                stems.add(mod_of(r)[-1])
-    return any(name == st or re.fullmatch(re.escape(st) + r"_\d*", name) for st in stems)
+        if member is None:
+            r = case["bases"].get(nm)
+        else:
+            mt = re.fullmatch(r"r(\d+)", member)
+            r = refs[int(mt.group(1))] if mt and int(mt.group(1)) < len(refs) else None
+        return r is not None and r not in roots and mod_of(r) != me
+    return False
 
 
 def observe(case: dict) -> e2e.Result:
